@@ -70,6 +70,17 @@ def _mods():
     return H, P, BS, BCA, CP, CA, SH, Problem
 
 
+class CollectQueue:
+    """worker-side stand-in of multiprocessing.Queue: snapshots what is put (pickling happens at put time in the model)"""
+
+    def __init__(self):
+        self.msgs = []
+
+    def put(self, msg):
+        idx, sol, stats = msg
+        self.msgs.append((idx, None if sol is None else sol.copy(), stats.copy()))
+
+
 class Ctx:
     """the symbolic inputs of one micro-model on the current path"""
 
@@ -158,20 +169,25 @@ def make_config(E, H, CA, cfg, ctx):
         kw["decision_domains"] = list(cfg["decision"])
     tables = {}
     W = ctx.D + 1
+    # cost tables: concrete, from a small family that includes ties (symbolic tables are the subject of the one-call
+    # heuristic harnesses of C09 / C04; here they would multiply the paths of a whole search)
+    fam = cfg.get("table", 0)
+
+    def table(kind):
+        if fam == 0:
+            return [[1] * W for _ in range(nd)]  # all ties
+        if fam == 1:
+            return [[1 + ((v + d) % 3) for v in range(W)] for d in range(nd)]
+        return [[3 - ((2 * v + d) % 3) for v in range(W)] for d in range(nd)]
+
     if cfg.get("varh") == "regret":
-        t = [[z3.Int(f"vc{d}_{v}") for v in range(W)] for d in range(nd)]
-        for row in t:
-            for c in row:
-                E.solver.add(c >= 1, c <= 3)
-        kw["var_heuristic_params"] = [[SymInt(c) for c in row] for row in t]
-        tables["var_costs"] = t
+        t = table("v")
+        kw["var_heuristic_params"] = t
+        tables["var_costs"] = [[z3.IntVal(c) for c in row] for row in t]
     if cfg.get("domh") == "cost":
-        t = [[z3.Int(f"dc{d}_{v}") for v in range(W)] for d in range(nd)]
-        for row in t:
-            for c in row:
-                E.solver.add(c >= 1, c <= 3)
-        kw["dom_heuristic_params"] = [[SymInt(c) for c in row] for row in t]
-        tables["dom_costs"] = t
+        t = table("d")
+        kw["dom_heuristic_params"] = t
+        tables["dom_costs"] = [[z3.IntVal(c) for c in row] for row in t]
     return kw, tables
 
 
@@ -273,6 +289,13 @@ class FixpointProbe:
         self.saved = None
         self.passes = 0
 
+    def alg_name(self, alg):
+        P = self.mods[1]
+        for n in dir(P):
+            if n.startswith("ALG_") and getattr(P, n) == alg:
+                return n[4:].lower()
+        return str(alg)
+
     def install(self):
         H, P, BS, BCA, CP, CA, SH, Problem = self.mods
         self.saved = list(CA.CONSISTENCY_ALG_FCTS)
@@ -322,13 +345,13 @@ class FixpointProbe:
                     st2 = self.saved_cd[alg](doms, pp[int(param_bounds[p, 0]) : int(param_bounds[p, 1])])
                     if st2 == 0:
                         if E.check():
-                            self.report("C08", "enabled-propagator-fails-at-exit", E.model(), prop_index=p, alg=alg)
+                            self.report("C08", "enabled-propagator-fails-at-exit", E.model(), prop_index=p, alg_name=self.alg_name(alg))
                         continue
                     if alg == P.ALG_NO_SUB_CYCLE:
                         continue
                     ch = OR([as_z3int(a) != as_z3int(b) for a, b in zip(doms.flat_values(), snap.flat_values())])
                     if E.query(ch):
-                        self.report("C08", "not-a-fixpoint-at-exit", E.model(), prop_index=p, alg=alg)
+                        self.report("C08", "not-a-fixpoint-at-exit", E.model(), prop_index=p, alg_name=self.alg_name(alg))
                 return status
 
             return w
@@ -379,7 +402,7 @@ def make(model, cfg=None, mode="solve", select=("C01", "C02"), order=None, objec
             if m is not None:
                 v.update(wit(m))
             v.update(kw2)
-            ks = [k for k in known if k["kind"] == kind and k["prop"] == prop]
+            ks = [k for k in known if k["kind"] == kind and k["prop"] == prop and (k.get("alg") is None or k.get("alg") == kw2.get("alg_name"))]
             if ks:
                 v["cls"] = ks[0]["cls"]
             E.acc.violation(v)
@@ -388,7 +411,7 @@ def make(model, cfg=None, mode="solve", select=("C01", "C02"), order=None, objec
         probe = FixpointProbe(E, mods, ctx, report) if "C08" in select else None
         rounds = [0]
         real_solve_one = BS.solve_one
-        if mode != "solve":
+        if mode not in ("solve", "solve_q"):
             budget_rounds = ctx.D + 3
 
             def counted(*a):
@@ -398,6 +421,20 @@ def make(model, cfg=None, mode="solve", select=("C01", "C02"), order=None, objec
                 return real_solve_one(*a)
 
             BS.solve_one = counted
+        # unwinding assertion on one propagation pass: pops <= 4 (P+1) (S+2), S = total domain size (DESIGN 1.7)
+        pass_budget = 4 * (len(md["props"]) + 1) * (nd * W + 2)
+        pops = [0]
+        real_pop = BCA.pop_propagator
+
+        def counted_pop(tp, prev):
+            if prev == -1:
+                pops[0] = 0
+            pops[0] += 1
+            if pops[0] > pass_budget:
+                raise BudgetExceeded("one propagation pass popped more than 4(P+1)(S+2) = %d propagators" % pass_budget)
+            return real_pop(tp, prev)
+
+        BCA.pop_propagator = counted_pop
         if probe:
             probe.install()
         if ghost:
@@ -419,24 +456,50 @@ def make(model, cfg=None, mode="solve", select=("C01", "C02"), order=None, objec
                         return
             elif mode == "minimize":
                 best = solver.minimize(objective)
-            else:
+            elif mode == "maximize":
                 best = solver.maximize(objective)
+            else:
+                # worker entry points of the multiprocessing solver, against a collecting queue (worker-side stream contract)
+                q = CollectQueue()
+                if mode == "solve_q":
+                    solver.solve_and_queue(7, q)
+                elif mode == "minimize_q":
+                    solver.minimize_and_queue(objective, 7, q)
+                else:
+                    solver.maximize_and_queue(objective, 7, q)
+                okc = len(q.msgs) >= 1 and q.msgs[-1][1] is None and all(m_[1] is not None for m_ in q.msgs[:-1]) and all(m_[0] == 7 for m_ in q.msgs)
+                for a_, b_ in zip(q.msgs, q.msgs[1:]):
+                    okc = okc and all(int(x_) <= int(y_) for x_, y_ in zip(a_[2].tolist(), b_[2].tolist()))
+                if not okc:
+                    report("C11" if "C11" in select else "C01", "worker-stream-contract-broken", None, messages=len(q.msgs))
+                stream = [m_[1].tolist() for m_ in q.msgs[:-1]]
+                if mode == "solve_q":
+                    sols = stream
+                else:
+                    if stream:
+                        best = q.msgs[-2][1]
+                        imp = OR([(as_z3int(b_[objective]) >= as_z3int(a_[objective])) if mode == "minimize_q" else (as_z3int(b_[objective]) <= as_z3int(a_[objective])) for a_, b_ in zip(stream, stream[1:])])
+                        if len(stream) > 1 and E.query(imp):
+                            report("C11" if "C11" in select else "C03", "worker-stream-not-strictly-improving", E.model())
             stats = solver.get_statistics()
         except Obligation as o:
             E.acc.count("obligation:" + o.kind)
-            prop = "C16" if "C16" in select else ("C03" if mode != "solve" else "C01")
+            prop = "C16" if "C16" in select else ("C03" if mode not in ("solve", "solve_q") else "C01")
             if o.model is not None:
                 report(prop, "obligation-" + o.kind, o.model, detail=o.detail)
             return
         finally:
             BS.solve_one = real_solve_one
+            BCA.pop_propagator = real_pop
             if ghost:
                 ghost.remove()
             if probe:
                 probe.remove()
             for lst, n in zip((P.COMPUTE_DOMAINS_FCTS, P.GET_TRIGGERS_FCTS, P.GET_COMPLEXITY_FCTS, H.DOM_HEURISTIC_FCTS, H.VAR_HEURISTIC_FCTS, CA.CONSISTENCY_ALG_FCTS), reg_lens):
                 del lst[n:]
-        if mode != "solve":
+        opt_dir = {"minimize": "min", "minimize_q": "min", "maximize": "max", "maximize_q": "max"}.get(mode)
+        enum_mode = mode in ("solve", "solve_q")
+        if not enum_mode:
             sols = [] if best is None else [best.tolist()]
         E.acc.count(f"solutions:{len(sols)}")
         # ------------------------------------------------------------------ semantic side
@@ -460,7 +523,7 @@ def make(model, cfg=None, mode="solve", select=("C01", "C02"), order=None, objec
                     continue
                 bad01.append(z3.Not(z3.And(ctx.lo[d] <= xs[d], xs[d] <= ctx.hi[d])))
             bad01.append(z3.Not(ctx.all_R(s)))
-        p01 = "C01" if mode == "solve" else "C03"
+        p01 = "C01" if enum_mode else "C03"
         if p01 in select or "C01" in select:
             if bad01 and E.query(OR(bad01)):
                 m = E.model()
@@ -474,7 +537,7 @@ def make(model, cfg=None, mode="solve", select=("C01", "C02"), order=None, objec
             return out
 
         full_decision = cfg.get("decision") is None
-        if mode == "solve" and "C02" in select and full_decision:
+        if enum_mode and "C02" in select and full_decision:
             dv = [dom_vec(s) for s in solz]
             dup = OR([AND([a == b for a, b in zip(dv[i], dv[j]) if a is not None]) for i in range(len(dv)) for j in range(i + 1, len(dv))])
             if E.query(dup):
@@ -484,25 +547,23 @@ def make(model, cfg=None, mode="solve", select=("C01", "C02"), order=None, objec
             if E.query(missing):
                 m = E.model()
                 report("C02", "solution-missing", m, solutions=[[E.ev(m, v) for v in s] for s in solz], missing=[E.ev(m, t) for t in vt])
-        if mode != "solve" and "C03" in select:
+        if not enum_mode and "C03" in select:
             if best is None:
                 if E.query(sem):
                     m = E.model()
                     report("C03", "none-although-feasible", m, feasible=[E.ev(m, t) for t in vt])
             else:
                 bz = solz[0][objective]
-                better = z3.And(sem, vt[objective] < bz if mode == "minimize" else vt[objective] > bz)
+                better = z3.And(sem, vt[objective] < bz if opt_dir == "min" else vt[objective] > bz)
                 if E.query(better):
                     m = E.model()
                     report("C03", "not-optimal", m, returned=[E.ev(m, v) for v in solz[0]], better=[E.ev(m, t) for t in vt])
         # ------------------------------------------------------------------ statistics (C17)
         if ghost and stats is not None:
             g = ghost.g
-            exp = {"PROPAGATOR_FILTER_NB": g["filter"], "PROPAGATOR_INCONSISTENCY_NB": g["incons"], "PROPAGATOR_ENTAILMENT_NB": g["entail"], "PROPAGATOR_FILTER_NO_CHANGE_NB": g["nochange"], "SOLVER_CHOICE_NB": g["choice"] if cfg.get("cons", "bc") == "bc" else None, "SOLVER_BACKTRACK_NB": g["bt"] if cfg.get("cons", "bc") == "bc" else None, "ALG_BC_NB": g["bc"], "SOLVER_CHOICE_DEPTH": g["depth"] if cfg.get("cons", "bc") == "bc" else None, "SOLVER_SOLUTION_NB": len(sols) if mode == "solve" else rounds[0] - (1 if True else 0)}
-            if mode != "solve":
-                exp["SOLVER_SOLUTION_NB"] = None
+            exp = {"PROPAGATOR_FILTER_NB": g["filter"], "PROPAGATOR_INCONSISTENCY_NB": g["incons"], "PROPAGATOR_ENTAILMENT_NB": g["entail"], "PROPAGATOR_FILTER_NO_CHANGE_NB": g["nochange"], "SOLVER_CHOICE_NB": g["choice"] if cfg.get("cons", "bc") == "bc" else None, "SOLVER_BACKTRACK_NB": g["bt"] if cfg.get("cons", "bc") == "bc" else None, "ALG_BC_NB": g["bc"], "SOLVER_CHOICE_DEPTH": g["depth"] if cfg.get("cons", "bc") == "bc" else None, "SOLVER_SOLUTION_NB": len(sols) if enum_mode else None}
             wrong = {k: (int(stats[k]), v) for k, v in exp.items() if v is not None and int(stats[k]) != v}
-            if mode == "solve" and cfg.get("cons", "bc") == "bc":
+            if enum_mode and cfg.get("cons", "bc") == "bc":
                 if int(stats["ALG_BC_NB"]) != 1 + int(stats["SOLVER_CHOICE_NB"]) + int(stats["SOLVER_BACKTRACK_NB"]):
                     wrong["law:passes=1+choices+backtracks"] = (int(stats["ALG_BC_NB"]), int(stats["SOLVER_CHOICE_NB"]), int(stats["SOLVER_BACKTRACK_NB"]))
             for k, v in wrong.items():
@@ -521,7 +582,7 @@ def make(model, cfg=None, mode="solve", select=("C01", "C02"), order=None, objec
             m = E.model()
             w = wit(m)
             w["solutions"] = [[E.ev(m, v) for v in s] for s in solz]
-            w["none"] = best is None and mode != "solve"
+            w["none"] = best is None and not enum_mode
             if stats is not None:
                 w["stats"] = {k: int(v) for k, v in stats.items()}
             if history:
@@ -533,7 +594,7 @@ def make(model, cfg=None, mode="solve", select=("C01", "C02"), order=None, objec
         if kind == "budget":
             E.acc.count("abort:budget")
             c = getattr(E, "ctx", None)
-            prop = "C04" if "C04" in select else ("C03" if mode != "solve" and "C03" in select else None)
+            prop = "C04" if "C04" in select else ("C03" if mode not in ("solve", "solve_q") and "C03" in select else None)
             if prop is None:
                 E.acc.count("budget-unlisted")
                 return
